@@ -222,3 +222,247 @@ Theorem C10_fault_missing :
   resolve_rec r s (S n) id is_field parents orig = Err (ETypeNotFound id).
 Proof. exact fault_missing. Qed.
 Print Assumptions C10_fault_missing.
+
+(** ** the missing-id clause, globally (Model/MissingId.v, Proofs/MissingId*.v).
+    [C10_fault_missing] above is local: one resolver step at the missing id itself.  The clause of
+    the property - "a reference to a missing id [is rejected] with the type-not-found error naming
+    that id ... at every possible site" - is about whole calls on a registry that is well-formed
+    EXCEPT for such references.
+
+    The class: [resolvable_but r s rank m] = [resolvable r s rank] (the class of
+    [C10_resolve_total]) with "closed" replaced by "every referenced id is an id of the registry
+    or [m]", [m] not an id of the registry ([rank] still decreases along every non-field edge,
+    the edges to [m] included; same entry clauses; supported settings: compact / bits paths
+    present).  [generable_but] adds what [generable] adds.  Any number of references to [m], at
+    any site (type parameter, Cow inner, sequence / array / tuple element, compact inner, bit
+    store / order, struct or variant field).
+
+    The reachability: [reaches_missing r parents id orig m'] (inductive, mirrors [resolve_rec]):
+    the call for [id] under the parent parameters [parents] and recorded name [orig] reaches a
+    reference to the unresolvable id [m'] - a position answered by a parent parameter is not
+    expanded; [Cow] is looked through once; then the typed parameters and the structural children
+    of the entry; NOT the fields of a Composite / Variant entry. *)
+From V Require Model.Renumber Model.MissingId Proofs.MissingId Proofs.MissingIdGuard Proofs.MissingIdGen
+  Proofs.MissingIdDescent Proofs.ExamplesMissingId Corr.CheckTG.
+
+(** [resolve_type_path] at every id of the registry (and at [m] itself): [TypeNotFound m] iff the
+    descent reaches a reference to [m], [Ok] (with printable result) otherwise - never a panic,
+    fuel exhaustion or another error.  All failures being the same one, the order of the descent
+    is immaterial. *)
+Theorem C10_missing_id_resolve :
+  forall r s rank m, V.Model.MissingId.resolvable_but r s rank m ->
+  forall id, in_reg r id \/ id = m ->
+    (V.Model.MissingId.reaches_missing r [] id None m ->
+     resolve_type_path r s id = Err (ETypeNotFound m)) /\
+    (~ V.Model.MissingId.reaches_missing r [] id None m ->
+     exists t, resolve_type_path r s id = Ok t /\
+               exists toks, tp_tokens (alloc_tokens (s_alloc s)) t = Ok toks).
+Proof. exact V.Proofs.MissingId.missing_id_resolve. Qed.
+Print Assumptions C10_missing_id_resolve.
+
+(** the same at every site of a nested call: any parent parameters, any recorded name, as a field
+    or not ([resolve_field_type_path] is the instance [is_field = true]) *)
+Theorem C10_missing_id_resolve_at_site :
+  forall r s rank m, V.Model.MissingId.resolvable_but r s rank m ->
+  forall id is_field parents orig, in_reg r id \/ id = m ->
+    (V.Model.MissingId.reaches_missing r parents id orig m ->
+     resolve_rec r s (fuel0 r) id is_field parents orig = Err (ETypeNotFound m)) /\
+    (~ V.Model.MissingId.reaches_missing r parents id orig m ->
+     exists t, resolve_rec r s (fuel0 r) id is_field parents orig = Ok t /\
+               exists toks, tp_tokens (alloc_tokens (s_alloc s)) t = Ok toks).
+Proof. exact V.Proofs.MissingId.missing_id_resolve_rec. Qed.
+Print Assumptions C10_missing_id_resolve_at_site.
+
+(** nothing but [m] can be reached *)
+Theorem C10_reaches_only_missing :
+  forall r s rank m, V.Model.MissingId.resolvable_but r s rank m ->
+  forall parents id orig m', in_reg r id \/ id = m ->
+    V.Model.MissingId.reaches_missing r parents id orig m' -> m' = m.
+Proof. exact V.Proofs.MissingId.reaches_missing_is_m. Qed.
+Print Assumptions C10_reaches_only_missing.
+
+(** generation (the property's quantifier: unique item paths, no recursive derives; any
+    comparison function - it is never consulted): [TypeNotFound m] iff a field of some
+    item-eligible entry ([item_entry], Model/Renumber.v: not substituted, namespaced, Composite /
+    Variant) reaches [m] - resolved under the entry's own typed parameters with the field's
+    recorded type name, [entry_reaches_missing] - and [Ok] otherwise, and the [Ok] result is
+    emitted without failure (as in [C10_total]).  No "first failing entry" is needed: every
+    failure is the same one. *)
+Theorem C10_missing_id_generate :
+  forall r s rank m, V.Model.MissingId.generable_but r s rank m ->
+  forall teq, V.Model.Renumber.unique_item_paths r s -> dr_recursive (s_dreg s) = [] ->
+    ((exists e, In e r /\ V.Model.Renumber.item_entry s (snd e) = true /\
+                V.Model.MissingId.entry_reaches_missing r (snd e) m) ->
+     generate r s teq = Err (ETypeNotFound m)) /\
+    (~ (exists e, In e r /\ V.Model.Renumber.item_entry s (snd e) = true /\
+                  V.Model.MissingId.entry_reaches_missing r (snd e) m) ->
+     exists items, generate r s teq = Ok items /\ exists toks, emit_module s items = Ok toks).
+Proof. exact V.Proofs.MissingIdGen.missing_id_generate. Qed.
+Print Assumptions C10_missing_id_generate.
+
+(** the run-time guard of [prop_missing_id_paths] (Corr/CheckTG.v, [descent_base_ok]: the REPAIRED
+    registry - every dangling reference redirected to a fresh [u8] entry - is well-formed) puts
+    the registry into the class, provided all dangling references name one id *)
+Theorem C10_missing_id_guard_sound :
+  forall r s m,
+    wf_regb (V.Corr.CheckTG.repair_reg r) = true -> supportedb r s = true ->
+    (forall c, In c (V.Corr.CheckTG.dangling_refs r) -> c = m) -> ~ in_reg r m ->
+    ids_consistent r = true ->
+    exists rank, V.Model.MissingId.generable_but r s rank m.
+Proof. exact V.Proofs.MissingIdGuard.guard_generable_but. Qed.
+Print Assumptions C10_missing_id_guard_sound.
+
+(** the independent descent of the run-time checkers is a correct worklist closure, for ANY
+    registry and settings: when [descent_rounds] answers [Some fails], [fails] is exactly the set
+    of failures [descent_step] raises at the ids reachable from the root along its edges *)
+Theorem C10_descent_rounds_closure :
+  forall r s n id fails,
+    V.Corr.CheckTG.descent_rounds n r s [] [] [id] [] = Some fails ->
+    forall f, In f fails <->
+              exists v, V.Proofs.MissingIdDescent.dreach r s id v /\ V.Proofs.MissingIdDescent.dfails r s v f.
+Proof. exact V.Proofs.MissingIdDescent.descent_rounds_spec. Qed.
+Print Assumptions C10_descent_rounds_closure.
+
+(** ... on the class it computes [reaches_missing]: only [FMissing m] is collected, and something
+    is collected iff the root reaches [m] *)
+Theorem C10_descent_computes_reaches :
+  forall r s rank m, V.Model.MissingId.resolvable_but r s rank m ->
+  forall n id fails, in_reg r id \/ id = m ->
+    V.Corr.CheckTG.descent_rounds n r s [] [] [id] [] = Some fails ->
+    (forall f, In f fails -> f = V.Corr.CheckTG.FMissing m) /\
+    (fails <> [] <-> V.Model.MissingId.reaches_missing r [] id None m).
+Proof. exact V.Proofs.MissingIdDescent.descent_rounds_reaches. Qed.
+Print Assumptions C10_descent_computes_reaches.
+
+(** ... hence the checker's verdict IS the model's outcome: what [prop_missing_id_paths] demands of
+    the observed [resolve_type_path] holds of the model's ([DUnsure] = round budget exhausted:
+    nothing is claimed) *)
+Theorem C10_path_verdict_model :
+  forall r s rank m, V.Model.MissingId.resolvable_but r s rank m ->
+  forall id, in_reg r id \/ id = m ->
+    match V.Corr.CheckTG.path_verdict r s id with
+    | V.Corr.CheckTG.DClean =>
+        ~ V.Model.MissingId.reaches_missing r [] id None m /\ exists t, resolve_type_path r s id = Ok t
+    | V.Corr.CheckTG.DFail f =>
+        f = V.Corr.CheckTG.FMissing m /\ V.Model.MissingId.reaches_missing r [] id None m /\
+        resolve_type_path r s id = Err (ETypeNotFound m)
+    | V.Corr.CheckTG.DUnsure => True
+    end.
+Proof. exact V.Proofs.MissingIdDescent.path_verdict_model. Qed.
+Print Assumptions C10_path_verdict_model.
+
+(** non-vacuity: a::S { x: Vec<#7>, y: u8 }, Vec<#7>, u8, a::T { y: u8 }, (u8, Vec<#7>); ids 0 - 4, the
+    id 7 is missing.  The tuple reaches it (error, checker verdict [DFail (FMissing 7)]); the
+    struct a::S does not as a PATH (clean) but generation resolves its field and fails. *)
+Theorem C10_missing_id_example :
+  exists r s m rank,
+    V.Model.MissingId.generable_but r s rank m /\ V.Model.Renumber.unique_item_paths r s /\
+    dr_recursive (s_dreg s) = [] /\
+    V.Model.MissingId.reaches_missing r [] 4 None m /\
+    resolve_type_path r s 4 = Err (ETypeNotFound m) /\
+    V.Corr.CheckTG.path_verdict r s 4 = V.Corr.CheckTG.DFail (V.Corr.CheckTG.FMissing m) /\
+    ~ V.Model.MissingId.reaches_missing r [] 0 None m /\
+    (exists t, resolve_type_path r s 0 = Ok t) /\
+    V.Corr.CheckTG.path_verdict r s 0 = V.Corr.CheckTG.DClean /\
+    (exists e, In e r /\ V.Model.Renumber.item_entry s (snd e) = true /\
+               V.Model.MissingId.entry_reaches_missing r (snd e) m) /\
+    generate r s (types_equal r) = Err (ETypeNotFound m).
+Proof. exact V.Proofs.ExamplesMissingId.missing_id_example. Qed.
+Print Assumptions C10_missing_id_example.
+
+(** the other two verdicts of the run-time checkers (Proofs/MissingIdVerdicts.v).
+    [field_verdict r s t f]: the closure below the field's root with the ids of the entry's typed
+    parameters as stop list (a position answered by a parent parameter is not expanded; at the root
+    the recorded type name must match as well).  It is the outcome of the model's
+    [resolve_field_type_path] at that field, [freach] = the field reaches [m] under the entry's
+    parameters ([reaches_missing r (params_from_scale_info (t_params t)) (f_ty f) (f_type_name f) m]) *)
+From V Require Proofs.MissingIdVerdicts.
+
+Theorem C10_field_verdict_model :
+  forall r s rank m, V.Model.MissingId.generable_but r s rank m ->
+  forall t f, in_reg r (f_ty f) \/ f_ty f = m ->
+    match V.Corr.CheckTG.field_verdict r s t f with
+    | V.Corr.CheckTG.DClean =>
+        ~ V.Proofs.MissingIdGen.freach r m (params_from_scale_info (t_params t)) f /\
+        exists p, resolve_field_type_path r s (f_ty f) (params_from_scale_info (t_params t))
+                                          (f_type_name f) = Ok p
+    | V.Corr.CheckTG.DFail x =>
+        x = V.Corr.CheckTG.FMissing m /\
+        V.Proofs.MissingIdGen.freach r m (params_from_scale_info (t_params t)) f /\
+        resolve_field_type_path r s (f_ty f) (params_from_scale_info (t_params t))
+                                (f_type_name f) = Err (ETypeNotFound m)
+    | V.Corr.CheckTG.DUnsure => True
+    end.
+Proof. exact V.Proofs.MissingIdVerdicts.field_verdict_model. Qed.
+Print Assumptions C10_field_verdict_model.
+
+(** [gen_verdict]: entries in registry order, fields in field order, the first field that is not
+    clean decides.  With unique item paths and no recursive derives it is the outcome of the model's
+    [generate] (any comparison function) *)
+Theorem C10_gen_verdict_model :
+  forall r s rank m, V.Model.MissingId.generable_but r s rank m ->
+  forall teq, V.Model.Renumber.unique_item_paths r s -> dr_recursive (s_dreg s) = [] ->
+    match fst (V.Corr.CheckTG.gen_verdict r s) with
+    | V.Corr.CheckTG.DClean =>
+        exists items, generate r s teq = Ok items /\ exists toks, emit_module s items = Ok toks
+    | V.Corr.CheckTG.DFail x =>
+        x = V.Corr.CheckTG.FMissing m /\ generate r s teq = Err (ETypeNotFound m)
+    | V.Corr.CheckTG.DUnsure => True
+    end.
+Proof. exact V.Proofs.MissingIdVerdicts.gen_verdict_model. Qed.
+Print Assumptions C10_gen_verdict_model.
+
+(** on the example registry of [C10_missing_id_example] the generation verdict is a definite one *)
+Theorem C10_gen_verdict_example :
+  V.Corr.CheckTG.gen_verdict V.Proofs.MissingIdGuard.missing_ex_reg V.Model.ExamplesTG.ex_set =
+  (V.Corr.CheckTG.DFail (V.Corr.CheckTG.FMissing 7), false).
+Proof. exact V.Proofs.ExamplesMissingId.missing_ex_gen_verdict. Qed.
+Print Assumptions C10_gen_verdict_example.
+
+(** the round budget [descent_budget] always suffices (every round expands at least one new id,
+    all of them the root or referenced ids), so on the class the verdicts are DEFINITE: never
+    [DUnsure].  The path verdict together with the model's outcome: *)
+Theorem C10_path_verdict_definite :
+  forall r s rank m, V.Model.MissingId.generable_but r s rank m ->
+  forall id, in_reg r id \/ id = m ->
+    (V.Corr.CheckTG.path_verdict r s id = V.Corr.CheckTG.DClean /\
+     exists t, resolve_type_path r s id = Ok t) \/
+    (V.Corr.CheckTG.path_verdict r s id = V.Corr.CheckTG.DFail (V.Corr.CheckTG.FMissing m) /\
+     resolve_type_path r s id = Err (ETypeNotFound m)).
+Proof. exact V.Proofs.MissingIdVerdicts.path_verdict_definite. Qed.
+Print Assumptions C10_path_verdict_definite.
+
+Theorem C10_field_verdict_definite :
+  forall r s rank m, V.Model.MissingId.generable_but r s rank m ->
+  forall t f, in_reg r (f_ty f) \/ f_ty f = m ->
+    V.Corr.CheckTG.field_verdict r s t f = V.Corr.CheckTG.DClean \/
+    V.Corr.CheckTG.field_verdict r s t f = V.Corr.CheckTG.DFail (V.Corr.CheckTG.FMissing m).
+Proof. exact V.Proofs.MissingIdVerdicts.field_verdict_definite. Qed.
+Print Assumptions C10_field_verdict_definite.
+
+(** the whole claim of the run-time checker [prop_missing_id_paths] (every [resolve_type_path]
+    outcome and the generation outcome against the independent descent) evaluated on the MODEL's
+    own outcomes is [true]: for a case whose recorded outcomes are the model's ([corr_paths],
+    [corr_gen]) on a registry of the class, with unique item paths and no recursive derives (the
+    property's quantifier).  So what the checker demands of the implementation is a consequence of
+    the theorems above plus the behavioural correspondence. *)
+From V Require Corr.RunTG.
+
+Theorem C10_checker_on_model :
+  forall (c : V.Corr.RunTG.tg_case) rank m,
+    V.Model.MissingId.generable_but (V.Corr.RunTG.tg_reg c)
+      (V.Corr.RunTG.settings_of (V.Corr.RunTG.tg_spec c)) rank m ->
+    V.Model.Renumber.unique_item_paths (V.Corr.RunTG.tg_reg c)
+      (V.Corr.RunTG.settings_of (V.Corr.RunTG.tg_spec c)) ->
+    dr_recursive (s_dreg (V.Corr.RunTG.settings_of (V.Corr.RunTG.tg_spec c))) = [] ->
+    V.Corr.RunTG.tg_paths c =
+      map (fun i => V.Corr.RunTG.obs_of
+                      (V.Corr.RunTG.model_path (V.Corr.RunTG.tg_reg c)
+                         (V.Corr.RunTG.settings_of (V.Corr.RunTG.tg_spec c)) i))
+          (V.Corr.RunTG.ids_of (V.Corr.RunTG.tg_reg c)) ->
+    V.Corr.RunTG.tg_gen c =
+      V.Corr.RunTG.obs_of (V.Corr.RunTG.model_gen (V.Corr.RunTG.tg_reg c)
+                             (V.Corr.RunTG.settings_of (V.Corr.RunTG.tg_spec c))) ->
+    V.Corr.CheckTG.prop_missing_id_paths c = true.
+Proof. exact V.Proofs.MissingIdVerdicts.prop_missing_id_paths_on_model. Qed.
+Print Assumptions C10_checker_on_model.
